@@ -35,7 +35,8 @@ from pyramid.registry import Introspectable, Introspector, undefer, Deferred
 
 BASE_INFO = 1000000
 
-RULE = ('ops: a case is non-trivial when it re-adds a live key, removes a related introspectable, or relates two '
+RULE = ('cfg histories (several commits on one configurator, or an autocommit configurator) are always non-trivial; '
+        'ops: a case is non-trivial when it re-adds a live key, removes a related introspectable, or relates two '
         'introspectables with equal contents; cfg: a case is non-trivial when at least one statement is overridden '
         'through include nesting, or some configurator has introspection off, or a statement produces a relation; '
         'distinct = distinct canonical case JSON')
@@ -157,37 +158,37 @@ def impl_ops(case):
 
 
 class RefIntrospector:
-    """The state-machine laws, stated directly (python reference for the property oracle of the ops stream):
-    a map key -> (val, info) kept in last-add order, and a symmetric relation on keys.  Valid for sequences in
-    which no two different keys ever carry equal contents and a key is never re-added (`wf_ops`)."""
+    """The state-machine laws, stated directly (python reference for the property oracle of the ops stream).
+    Every `add` creates a new *object* (identified by its fresh contents number); a slot (category, discriminator)
+    holds the object added to it last.  Relations belong to objects, not to slots: `relate` links the objects that
+    occupy the named slots at that moment, pairwise and both ways; re-adding a slot puts a new, unrelated object
+    there (the replaced object keeps its links but is no longer in any category); `remove` unlinks the removed object.
+    Valid for sequences in which all added contents are different (`wf_ops`)."""
 
     def __init__(self):
-        self.live = {}        # (c, d) -> (v, info), insertion order = last add
+        self.live = {}        # (c, d) -> v, insertion order = last add
+        self.obj = {}         # v -> (c, d, info)
         self.cats = set()
-        self.rel = {}         # key -> [keys] in link order
+        self.rel = {}         # v -> [v] in link order
 
     def add(self, c, d, v, info):
         self.live.pop((c, d), None)
-        self.live[(c, d)] = (v, info)
+        self.live[(c, d)] = v
+        self.obj[v] = (c, d, info)
         self.cats.add(c)
 
+    def o3(self, v):
+        c, d, _ = self.obj[v]
+        return [c, d, v]
+
     def catview(self, c):
-        return [[d, v, info, [[c2, d2, self.live[(c2, d2)][0]] for (c2, d2) in self.rel.get((c, d), [])]]
-                for (cc, d), (v, info) in self.live.items() if cc == c]
+        return [[d, v, self.obj[v][2], [self.o3(w) for w in self.rel.get(v, [])]]
+                for (cc, d), v in self.live.items() if cc == c]
 
 
 def wf_ops(seq):
-    seen_val, seen_key = {}, set()
-    for op in seq:
-        if op[0] == 'add':
-            k = (op[1], op[2])
-            if k in seen_key:
-                return False
-            if op[3] in seen_val and seen_val[op[3]] != k:
-                return False
-            seen_key.add(k)
-            seen_val[op[3]] = k
-    return True
+    vals = [op[3] for op in seq if op[0] == 'add']
+    return len(vals) == len(set(vals))
 
 
 def oracle_ops(case, results):
@@ -202,8 +203,8 @@ def oracle_ops(case, results):
             R.add(op[1], op[2], op[3], op[4]); exp = None
         elif name == 'get':
             R.cats.add(op[1])
-            e = R.live.get((op[1], op[2]))
-            exp = None if e is None else [op[2], e[0], e[1]]
+            v = R.live.get((op[1], op[2]))
+            exp = None if v is None else [op[2], v, R.obj[v][2]]
         elif name == 'get_category':
             exp = R.catview(op[1]) if op[1] in R.cats else None
         elif name == 'categories':
@@ -214,17 +215,18 @@ def oracle_ops(case, results):
             R.cats.add(op[1])
             k = (op[1], op[2])
             if k in R.live:
-                del R.live[k]
-                for o in R.rel.pop(k, []):
-                    R.rel[o].remove(k)
+                v = R.live.pop(k)
+                for o in R.rel.pop(v, []):
+                    R.rel[o].remove(v)
             exp = None
         elif name in ('relate', 'unrelate'):
             ks = [tuple(p) for p in op[1]]
             if any(k not in R.live for k in ks):
                 exp = {'err': 'KeyError'}
             else:
-                for x in ks:
-                    for y in ks:
+                vs = [R.live[k] for k in ks]
+                for x in vs:
+                    for y in vs:
                         L = R.rel.setdefault(x, []) if name == 'relate' else R.rel.get(x, [])
                         if name == 'relate':
                             if x != y and y not in L:
@@ -234,15 +236,38 @@ def oracle_ops(case, results):
                 exp = None
         elif name == 'related':
             k = (op[1], op[2])
-            exp = {'err': 'KeyError'} if k not in R.live else [[c, d, R.live[(c, d)][0]] for c, d in R.rel.get(k, [])]
+            exp = {'err': 'KeyError'} if k not in R.live else [R.o3(w) for w in R.rel.get(R.live[k], [])]
         if got != exp:
             return 'operation %s answered %s; the state-machine laws give %s' % (json.dumps(op), json.dumps(got), json.dumps(exp))
-        # symmetry of `related` over the live keys, after every step
-        for x, L in R.rel.items():
-            for y in L:
-                if x in R.live and y in R.live and x not in R.rel.get(y, []):
-                    return 'reference relation not symmetric (harness bug)'
     return None
+
+
+SMALL_SLOTS = [(0, 0), (0, 1), (1, 0)]
+
+
+def small_scope_ops(maxlen):
+    """every operation sequence of 1..maxlen steps over three slots (two share a category) and the alphabet
+    add(slot) [fresh contents, so a second add of a slot is a re-add by another object], relate / unrelate of each pair
+    of slots, remove(slot); each followed by `categorized` (which lists every live entry with its related list)"""
+    import itertools
+    alpha = [('add', s_) for s_ in SMALL_SLOTS] + [('remove', s_) for s_ in SMALL_SLOTS]
+    pairs = [(a_, b_) for i, a_ in enumerate(SMALL_SLOTS) for b_ in SMALL_SLOTS[i + 1:]]
+    alpha += [('relate', p_) for p_ in pairs] + [('unrelate', p_) for p_ in pairs]
+    for n in range(1, maxlen + 1):
+        for combo in itertools.product(alpha, repeat=n):
+            if combo[0][0] != 'add':
+                continue            # anything before the first add only raises KeyError / creates categories
+            seq, v = [], 0
+            for kind, arg in combo:
+                if kind == 'add':
+                    v += 1
+                    seq.append(['add', arg[0], arg[1], v, len(seq)])
+                elif kind == 'remove':
+                    seq.append(['remove', arg[0], arg[1]])
+                else:
+                    seq.append([kind, [list(arg[0]), list(arg[1])]])
+            seq.append(['categorized'])
+            yield {'stream': 'ops', 'seq': seq}
 
 
 def nontrivial_ops(case):
@@ -674,9 +699,10 @@ def mk_stmt(g, fam, args):
     return {'stmt': {'id': g['sid'], 'dir': fam, 'args': args}}
 
 
-def gen_cfg(rng, fams=None, shape=None, flag=None):
-    """one configuration program"""
-    g = {'n': 0, 'sid': 0, 'inc': 0}
+def gen_cfg(rng, fams=None, shape=None, flag=None, g=None, same_as=None, firsts=None, switches=True):
+    """one configuration program.  `same_as[fam] = (key, args)`: the first statement of that family re-declares the
+    slot of an earlier statement (same discriminating arguments, fresh values); `firsts` collects them."""
+    g = g if g is not None else {'n': 0, 'sid': 0, 'inc': 0}
     fams = fams or rng.sample(FAMILIES, rng.choice([1, 2, 3, 4]))
     shape = shape or rng.choice(['flat', 'nested', 'override', 'override', 'override', 'deep', 'deep', 'nested', 'flat', 'override', 'conflict'])
     root_flag = (rng.random() < 0.8) if flag is None else flag
@@ -695,8 +721,14 @@ def gen_cfg(rng, fams=None, shape=None, flag=None):
                 continue
             legacy = True
         key = rng.randrange(3)
-        s1 = mk_stmt(g, fam, fam_args(rng, g, fam, key))
-        if fam == 'add_view' and rng.random() < 0.5:
+        if same_as and fam in same_as:
+            key = same_as[fam][0]
+            s1 = mk_stmt(g, fam, _same_key(fam, copy.deepcopy(same_as[fam][1]), fam_args(rng, g, fam, key)))
+        else:
+            s1 = mk_stmt(g, fam, fam_args(rng, g, fam, key))
+        if firsts is not None:
+            firsts.setdefault(fam, (key, s1['stmt']['args']))
+        if fam == 'add_view' and 'route_name' not in s1['stmt']['args'] and not (same_as and fam in same_as) and rng.random() < 0.5:
             # a view bound to a route of this program
             rk = rng.randrange(3)
             tree.append(mk_stmt(g, 'add_route', fam_args(rng, g, 'add_route', rk)))
@@ -732,13 +764,65 @@ def gen_cfg(rng, fams=None, shape=None, flag=None):
     if legacy:
         tree.append(mk_stmt(g, 'set_authorization_policy', {'policy': _tag(g, 'inst')}))
     # introspection flags: root, and now and then a nested configurator that switches
-    if rng.random() < 0.25:
+    if switches and rng.random() < 0.25:
         for n in tree:
             if 'incl' in n and rng.random() < 0.5:
                 n['set'] = rng.random() < 0.5
     if rng.random() < 0.3:
         tree = [inc(tree)]
     return {'stream': 'cfg', 'introspection': root_flag, 'tree': tree}
+
+
+POLICY_FAMS = ('set_security_policy', 'set_authentication_policy')
+
+
+def gen_history(rng, flag=None):
+    """a history of 2-3 commits on one configurator: later commits re-declare slots of earlier ones (same
+    discriminating arguments, other values, other callables, other relation targets) and add new statements"""
+    g = {'n': 0, 'sid': 0, 'inc': 0}
+    root_flag = (rng.random() < 0.85) if flag is None else flag
+    fams = rng.sample(FAMILIES, rng.choice([1, 2, 3]))
+    if rng.random() < 0.5 and 'add_view' not in fams:
+        fams.append('add_view')
+    firsts = {}
+    c1 = gen_cfg(rng, fams=fams, shape=rng.choice(['flat', 'nested', 'override']), flag=root_flag, g=g, firsts=firsts, switches=False)
+    commits = [c1['tree']]
+    for _ in range(rng.choice([1, 1, 2])):
+        # (a second set_authentication_policy is refused by pyramid itself once the first installed its legacy policy)
+        again = [f for f in firsts if rng.random() < 0.8 and f != 'set_authentication_policy']
+        fresh = [f for f in rng.sample(FAMILIES, rng.choice([0, 1])) if f not in firsts and f not in POLICY_FAMS]
+        fams2 = again + fresh
+        if not fams2:
+            fams2 = [f for f in firsts if f != 'set_authentication_policy'][:1] or ['add_permission']
+        if any(f in POLICY_FAMS for f in firsts):
+            fams2 = [f for f in fams2 if f not in POLICY_FAMS or f in firsts]
+        c = gen_cfg(rng, fams=fams2, shape=rng.choice(['flat', 'nested', 'override']), flag=root_flag, g=g,
+                    same_as=firsts, firsts=firsts, switches=False)
+        commits.append(c['tree'])
+    return {'stream': 'cfg', 'introspection': root_flag, 'commits': commits}
+
+
+AUTO_FAMS = [f for f in FAMILIES if f not in POLICY_FAMS]
+
+
+def gen_autocommit(rng, flag=None):
+    """an autocommit configurator: every statement takes effect at once (one statement per step); later statements
+    re-declare slots of earlier ones"""
+    g = {'n': 0, 'sid': 0, 'inc': 0}
+    root_flag = (rng.random() < 0.85) if flag is None else flag
+    fams = rng.sample(AUTO_FAMS, rng.choice([1, 2, 3]))
+    if rng.random() < 0.5 and 'add_view' not in fams:
+        fams.append('add_view')
+    firsts = {}
+    steps = []
+    for rnd in range(rng.choice([2, 2, 3])):
+        for fam in (fams if rnd == 0 else [f for f in fams if rng.random() < 0.8]):
+            c = gen_cfg(rng, fams=[fam], shape=rng.choice(['flat', 'flat', 'nested']), flag=root_flag, g=g,
+                        same_as=firsts if rnd else None, firsts=firsts, switches=False)
+            # one statement per step: helper statements (route, renderer, deriver of a view) come first
+            for node in c['tree']:
+                steps.append([node])
+    return {'stream': 'cfg', 'introspection': root_flag, 'autocommit': True, 'commits': steps}
 
 
 DISC_ARGS = {'add_route': ['name'], 'add_view': ['name', 'context', 'for_', 'route_name', 'request_method', 'request_param', 'containment',
@@ -869,62 +953,110 @@ class Canon:
         return [self.cat_id[intr.category_name], self.disc(safe_undefer(intr.discriminator)), self.val(intr)]
 
 
-def run_program(case, force_on=False):
-    """declare the tree on a real Configurator, commit.  -> dict with everything observed"""
+def case_trees(case):
+    """the commits of a case: `commits` (a history) or the single `tree`"""
+    return case['commits'] if 'commits' in case else [case['tree']]
+
+
+class RecConfigurator(Configurator):
+    """records what every directive hands to `action()` (needed for autocommit configurators, whose actions never
+    reach `ActionState.actions`); `include` builds nested configurators with `self.__class__`, so they record too"""
+
+    def action(self, discriminator, callable=None, args=(), kw=None, order=0, introspectables=(), **extra):
+        rec = getattr(self.registry, '_c20_rec', None)
+        if rec is not None and self.autocommit:
+            rec.append({'discriminator': discriminator, 'order': order, 'includepath': self.includepath,
+                        'info': self.action_info, 'introspectables': introspectables if self.introspection else ()})
+        return Configurator.action(self, discriminator, callable, args, kw, order, introspectables, **extra)
+
+
+def run_history(case, force_on=False, after_commit=None):
+    """declare every commit of the case on one real Configurator and commit it; `after_commit(real_k)` is called
+    right after each commit (the property oracle looks at the live introspector).  -> [real_k]"""
     objs = _Objs()
     flag = True if force_on else bool(case['introspection'])
-    config = Configurator(introspection=flag, package=sys.modules[__name__])
+    auto = bool(case.get('autocommit'))
+    config = RecConfigurator(introspection=flag, autocommit=auto, package=sys.modules[__name__])
+    config.registry._c20_rec = rec = []
     introspector = config.introspector
-    base = snapshot(introspector)
-    astate = config.action_state
-    stmts = {}       # id -> info
-    order = []
+    base0 = snapshot(introspector)
+    all_actions = []
+    out = []
+    prior_renderers = set()
+    for k, tree_k in enumerate(case_trees(case)):
+        astate = config.action_state
+        first = len(all_actions)
+        stmts, order = {}, []
 
-    def declare(cfg, nodes, env, expflag=flag):
-        for n in nodes:
-            if 'stmt' in n:
-                st = n['stmt']
-                pos, kw = build_args(st, objs)
-                a0 = len(astate.actions)
-                code = compile('getattr(cfg, name)(*pos, **kw)', '<c20-stmt-%d>' % st['id'], 'exec')
-                exec(code, {'cfg': cfg, 'name': st['dir'], 'pos': pos, 'kw': kw})
-                # 'flag': what the program asks for (root flag, inherited through include unless the included
-                # callable sets it) — not what the configurator object happens to carry
-                stmts[st['id']] = {'st': st, 'range': (a0, len(astate.actions)), 'flag': bool(expflag), 'cfgflag': bool(cfg.introspection),
-                                   'path': tuple(cfg.includepath), 'env': dict(env), 'pos': pos, 'kw': kw}
-                order.append(st['id'])
-            else:
-                def inc(c, n=n, env=env, expflag=expflag):
-                    if n.get('set') is not None and not force_on:
-                        c.introspection = n['set']
-                        expflag = n['set']
-                    env2 = dict(env)
-                    env2['route_prefix'] = c.route_prefix
-                    declare(c, n['body'], env2, expflag)
-                inc.__name__ = inc.__qualname__ = 'inc_%03d' % n['incl']
-                inc.__module__ = __name__
-                cfg.include(inc, route_prefix=n.get('prefix'))
-    res = {'outcome': 'ok', 'objs': objs, 'config': config, 'base': base, 'stmts': stmts, 'order': order}
-    try:
-        declare(config, case['tree'], {'route_prefix': None})
-    except Exception as e:
-        res['outcome'] = 'declare-raised:%s:%s' % (type(e).__name__, str(e)[:200])
-        res['actions'] = list(astate.actions)
-        return res
-    res['actions'] = actions = list(astate.actions)
-    try:
-        config.commit()
-    except ConfigurationConflictError as e:
-        res['outcome'] = 'conflict'
-        res['conflict_keys'] = list(e._conflicts.keys())
-    except ConfigurationExecutionError as e:
-        res['outcome'] = 'raised:ConfigurationExecutionError:%s:%s' % (getattr(e.etype, '__name__', e.etype), str(e.evalue)[:200])
-    except KeyError as e:
-        res['outcome'] = 'KeyError'
-        res['detail'] = repr(e)
-    except Exception as e:
-        res['outcome'] = 'raised:%s:%s' % (type(e).__name__, str(e)[:200])
-    return res
+        def npending():
+            return first + (len(rec) - first if auto else len(astate.actions))
+
+        def declare(cfg, nodes, env, expflag=flag):
+            for n in nodes:
+                if 'stmt' in n:
+                    st = n['stmt']
+                    pos, kw = build_args(st, objs)
+                    a0 = npending()
+                    code = compile('getattr(cfg, name)(*pos, **kw)', '<c20-stmt-%d>' % st['id'], 'exec')
+                    exec(code, {'cfg': cfg, 'name': st['dir'], 'pos': pos, 'kw': kw})
+                    # 'flag': what the program asks for (root flag, inherited through include unless the included
+                    # callable sets it) — not what the configurator object happens to carry
+                    stmts[st['id']] = {'st': st, 'range': (a0, npending()), 'flag': bool(expflag), 'cfgflag': bool(cfg.introspection),
+                                       'path': tuple(cfg.includepath), 'env': dict(env), 'pos': pos, 'kw': kw}
+                    order.append(st['id'])
+                else:
+                    def inc(c, n=n, env=env, expflag=expflag):
+                        if n.get('set') is not None and not force_on:
+                            c.introspection = n['set']
+                            expflag = n['set']
+                        env2 = dict(env)
+                        env2['route_prefix'] = c.route_prefix
+                        declare(c, n['body'], env2, expflag)
+                    inc.__name__ = inc.__qualname__ = 'inc_%03d' % n['incl']
+                    inc.__module__ = __name__
+                    cfg.include(inc, route_prefix=n.get('prefix'))
+        res = {'outcome': 'ok', 'objs': objs, 'config': config, 'base': snapshot(introspector), 'base0': base0,
+               'stmts': stmts, 'order': order, 'first': first, 'k': k, 'auto': auto, 'prior_renderers': set(prior_renderers)}
+        out.append(res)
+
+        def pend():
+            return list(rec[first:]) if auto else list(astate.actions)
+        try:
+            declare(config, tree_k, {'route_prefix': None})
+        except KeyError as e:
+            res['outcome'] = 'KeyError' if auto else 'declare-raised:KeyError:%s' % str(e)[:200]
+            res['detail'] = repr(e)
+        except ConfigurationExecutionError as e:
+            res['outcome'] = 'raised:ConfigurationExecutionError:%s:%s' % (getattr(e.etype, '__name__', e.etype), str(e.evalue)[:200])
+        except Exception as e:
+            res['outcome'] = 'declare-raised:%s:%s' % (type(e).__name__, str(e)[:200])
+        all_actions += pend()
+        res['actions'] = all_actions
+        if res['outcome'] == 'ok':
+            try:
+                config.commit()
+            except ConfigurationConflictError as e:
+                res['outcome'] = 'conflict'
+                res['conflict_keys'] = list(e._conflicts.keys())
+            except ConfigurationExecutionError as e:
+                res['outcome'] = 'raised:ConfigurationExecutionError:%s:%s' % (getattr(e.etype, '__name__', e.etype), str(e.evalue)[:200])
+            except KeyError as e:
+                res['outcome'] = 'KeyError'
+                res['detail'] = repr(e)
+            except Exception as e:
+                res['outcome'] = 'raised:%s:%s' % (type(e).__name__, str(e)[:200])
+        res['end'] = len(all_actions)
+        if res['outcome'] == 'ok':
+            res['raw'] = [(name, [(x['introspectable'], list(x['related'])) for x in lst]) for name, lst in introspector.categorized()]
+        if after_commit is not None:
+            after_commit(res)
+        if res['outcome'] != 'ok':
+            break
+        for sid in order:
+            st = stmts[sid]
+            if st['st']['dir'] == 'add_renderer' and st['flag']:
+                prior_renderers.add(st['kw'].get('name') or '')
+    return out
 
 
 def _path_ids(includepath):
@@ -943,38 +1075,40 @@ def needs_shadow(case):
                 if walk(n['body']):
                     return True
         return False
-    return walk(case['tree'])
+    return any(walk(t) for t in case_trees(case))
 
 
-def abstract(case, real, shadow):
-    """-> (model input, canon, helper maps) from the pending actions of the real run; the introspectables a
-    directive *built* are taken from the shadow run (same program, introspection forced on everywhere) when
-    some configurator of the real run has introspection off"""
-    src = shadow if shadow is not None else real
+def abstract(case, reals, shadows):
+    """-> (model input, canon, act_stmt) from the pending actions of the real run (every commit); the introspectables
+    a directive *built* are taken from the shadow run (same history, introspection forced on everywhere) when some
+    configurator of the real run has introspection off"""
+    real_actions = reals[-1]['actions']
+    src_actions = shadows[-1]['actions'] if shadows is not None else real_actions
     canon = Canon()
-    for name in real['base']['cats']:
+    for name in reals[0]['base0']['cats']:
         canon.note_cat(name)
-    for name in real['config'].introspector._categories:
+    for name in reals[0]['config'].introspector._categories:
         canon.note_cat(name)
-    for a in src['actions'] + real['actions']:
+    for a in src_actions + real_actions:
         for i in a.get('introspectables', ()):
             canon.note_cat(i.category_name)
             for _, cn, _ in i._relations:
                 canon.note_cat(cn)
     canon.freeze()
     # base state (what the constructor's own commit registered)
+    b0 = reals[0]['base0']
     cats = []
-    for name, lst in real['base']['cats'].items():
+    for name, lst in b0['cats'].items():
         cats.append([canon.cat_id[name], [[canon.disc(i.discriminator), canon.val(i), BASE_INFO, i.order] for i in lst]])
-    refs = [[canon.obj(k), [canon.obj(x) for x in v]] for k, v in real['base']['refs']]
-    base = {'cats': cats, 'refs': refs, 'counter': real['base']['counter']}
-    # pending actions -> statements
-    if len(src['actions']) != len(real['actions']):
-        raise RuntimeError('shadow run declared %d actions, real run %d' % (len(src['actions']), len(real['actions'])))
+    refs = [[canon.obj(k), [canon.obj(x) for x in v]] for k, v in b0['refs']]
+    base = {'cats': cats, 'refs': refs, 'counter': b0['counter']}
+    if len(src_actions) < len(real_actions):
+        raise RuntimeError('shadow run declared %d actions, real run %d' % (len(src_actions), len(real_actions)))
     act_stmt = {}
-    for sid, info in real['stmts'].items():
-        for k in range(*info['range']):
-            act_stmt[k] = sid
+    for real in reals:
+        for sid, info in real['stmts'].items():
+            for k in range(*info['range']):
+                act_stmt[k] = sid
 
     def decl(i):
         rels = []
@@ -982,43 +1116,42 @@ def abstract(case, real, shadow):
             rels.append([1 if rel else 0, canon.cat_id[cn], canon.disc(safe_undefer(d))])
         return {'obj': canon.obj(i), 'rels': rels}
 
-    def acts_of(sid):
+    def acts_of(real, sid):
         out = []
         for k in range(*real['stmts'][sid]['range']):
-            a = real['actions'][k]
+            a = real_actions[k]
             d = safe_undefer(a['discriminator'])
-            out.append({'act': {'id': k, 'disc': None if d is None else canon.disc(('action', d)) + 0,
+            out.append({'act': {'id': k, 'disc': None if d is None else canon.disc(('action', d)),
                                 'order': a['order'] or 0,
-                                'intrs': [decl(i) for i in (a.get('introspectables', ()) or src['actions'][k].get('introspectables', ()))]}})
+                                'intrs': [decl(i) for i in (a.get('introspectables', ()) or src_actions[k].get('introspectables', ()))]}})
         return out
 
-    def tree(nodes):
+    def tree(real, nodes):
         out = []
         for n in nodes:
             if 'stmt' in n:
                 if n['stmt']['id'] in real['stmts']:
-                    out += acts_of(n['stmt']['id'])
+                    out += acts_of(real, n['stmt']['id'])
             else:
-                out.append({'incl': n['incl'], 'set': n.get('set'), 'body': tree(n['body'])})
+                out.append({'incl': n['incl'], 'set': n.get('set'), 'body': tree(real, n['body'])})
         return out
-    minput = {'op': 'commit', 'base': base, 'flag': bool(case['introspection']), 'forwards': True, 'tree': tree(case['tree'])}
+    commits = [{'auto': bool(real['auto']), 'tree': tree(real, t)} for real, t in zip(reals, case_trees(case))]
+    minput = {'op': 'history', 'base': base, 'flag': bool(case['introspection']), 'forwards': True, 'commits': commits}
     return minput, canon, act_stmt
 
 
 def real_view(real, canon, act_stmt):
-    """`introspector.categorized()` in model numbers; info = id of the declaring statement"""
+    """`introspector.categorized()` as it was right after the commit, in model numbers; info = declaring statement"""
     info_of = {}
     for k, a in enumerate(real['actions']):
         info_of[id(a['info'])] = act_stmt.get(k, -1)
     out = []
-    I = real['config'].introspector
-    base_objs = {id(i) for lst in real['base']['cats'].values() for i in lst}
-    for name, lst in I.categorized():
+    base_objs = {id(i) for lst in real['base0']['cats'].values() for i in lst}
+    for name, lst in real['raw']:
         row = []
-        for x in lst:
-            i = x['introspectable']
+        for i, rel in lst:
             info = BASE_INFO if id(i) in base_objs else info_of.get(id(i.action_info), -2)
-            row.append([canon.disc(i.discriminator), canon.val(i), info, [canon.obj(y) for y in x['related']]])
+            row.append([canon.disc(i.discriminator), canon.val(i), info, [canon.obj(y) for y in rel]])
         out.append([canon.cat_id.get(name, -1), row])
     return out
 
@@ -1028,8 +1161,13 @@ def real_view(real, canon, act_stmt):
 def _winner_map(real):
     """statement id -> True (took effect) / False (overridden): the C04 rule stated directly on the observed
     discriminators and include paths.  None when the program has a genuine conflict."""
+    if real.get('auto'):
+        # autocommit: no conflict resolution, every statement takes effect at once
+        return {sid: True for sid in real['stmts']}
     groups = {}
     for k, a in enumerate(real['actions']):
+        if k < real.get('first', 0):
+            continue
         try:
             d = undefer(a['discriminator'])
         except Exception:
@@ -1330,7 +1468,7 @@ def oracle_view_satellites(real, eff):
     out = []
     I = real['config'].introspector
     base_objs = {id(i) for lst in real['base']['cats'].values() for i in lst}
-    renderer_factories = set()
+    renderer_factories = set(real.get('prior_renderers', ()))
     for sid in real['order']:
         st = real['stmts'][sid]
         if st['st']['dir'] == 'add_renderer' and eff[sid] and st['flag']:
@@ -1387,11 +1525,7 @@ def oracle_view_satellites(real, eff):
 #  one case through implementation, model and oracle
 # =====================================================================================================
 
-def prep_cfg(case, want_model=True):
-    """run the implementation and the oracle; prepare the model input (`minput`) and what its reply is compared with"""
-    real = run_program(case)
-    res = {'impl': {'outcome': real['outcome']}, 'model': None, 'mismatch': None, 'violations': [], 'minput': None}
-    # property oracle
+def _oracle_commit(case, real):
     try:
         v = oracle_cfg(case, real)
         if real['outcome'] == 'ok':
@@ -1400,66 +1534,87 @@ def prep_cfg(case, want_model=True):
                 v += oracle_view_satellites(real, eff)
                 # with introspection off everywhere nothing at all may be recorded
                 if all(not s['flag'] for s in real['stmts'].values()) and real['stmts']:
-                    I = real['config'].introspector
-                    now = snapshot(I)
+                    now = snapshot(real['config'].introspector)
                     if {k: [id(x) for x in l] for k, l in now['cats'].items() if l} != {k: [id(x) for x in l] for k, l in real['base']['cats'].items() if l}:
                         v.append(('introspection is off on every configurator, yet the introspector changed during commit', None))
-    except Exception as e:
+    except Exception:
         import traceback
         v = [('oracle crashed: %s' % traceback.format_exc()[-600:], None)]
-    res['violations'] = v
-    res['impl']['effective'] = sorted(k for k, x in (_winner_map(real) or {}).items() if x) if real['outcome'] == 'ok' else None
-    res['nontrivial'] = nontrivial_cfg(case, real)
-    res['dist'] = {'outcome': real['outcome'].split(':')[0], 'stmts': len(real['stmts'])}
-    if not want_model or real['outcome'].startswith('declare-raised'):
+    if len(case_trees(case)) > 1 or case.get('autocommit'):
+        v = [('commit %d: %s' % (real['k'] + 1, d), f) for d, f in v]
+    return v
+
+
+def prep_cfg(case, want_model=True):
+    """run the implementation and the oracle (after every commit); prepare the model input (`minput`) and what its
+    reply is compared with"""
+    viol = []
+    reals = run_history(case, after_commit=lambda real: viol.extend(_oracle_commit(case, real)))
+    last = reals[-1]
+    res = {'impl': {'outcome': last['outcome'], 'outcomes': [r['outcome'] for r in reals]}, 'model': None, 'mismatch': None,
+           'violations': viol, 'minput': None}
+    res['impl']['effective'] = [sorted(k for k, x in (_winner_map(r) or {}).items() if x) if r['outcome'] == 'ok' else None for r in reals]
+    res['nontrivial'] = any(nontrivial_cfg(case, r) for r in reals) or len(reals) > 1
+    res['dist'] = {'outcome': last['outcome'].split(':')[0], 'stmts': sum(len(r['stmts']) for r in reals)}
+    if not want_model or last['outcome'].startswith('declare-raised'):
         return res
     try:
-        shadow = run_program(case, force_on=True) if needs_shadow(case) else None
-        minput, canon, act_stmt = abstract(case, real, shadow)
+        shadows = run_history(case, force_on=True) if needs_shadow(case) else None
+        minput, canon, act_stmt = abstract(case, reals, shadows)
         res['minput'] = minput
         res['act_stmt'] = act_stmt
-        res['real_pend'] = [[k, _path_ids(a['includepath']), len(a.get('introspectables', ()))] for k, a in enumerate(real['actions'])]
-        res['rv'] = real_view(real, canon, act_stmt) if real['outcome'] == 'ok' else None
-    except Exception as e:
+        res['real_pend'] = [[[k, _path_ids(a['includepath']), len(a.get('introspectables', ()))]
+                             for k, a in enumerate(r['actions'][:r['end']]) if k >= r['first']] for r in reals]
+        res['rv'] = [real_view(r, canon, act_stmt) if r['outcome'] == 'ok' else None for r in reals]
+    except Exception:
         import traceback
         res['mismatch'] = 'harness error: %s' % traceback.format_exc()[-500:]
     return res
 
 
 def finish_cfg(res, rep):
-    """compare the model's reply with what the implementation did"""
+    """compare the model's reply with what the implementation did, commit by commit"""
     if res.get('minput') is None:
         return res
     res.pop('minput')
-    act_stmt, real_pend, rv = res.pop('act_stmt'), res.pop('real_pend'), res.pop('rv')
-    outcome = res['impl']['outcome']
-    res['model'] = {k: rep.get(k) for k in ('outcome', 'reg', 'executed')}
+    act_stmt, real_pends, rvs = res.pop('act_stmt'), res.pop('real_pend'), res.pop('rv')
+    outcomes = res['impl']['outcomes']
     if 'error' in rep:
         res['mismatch'] = 'driver error: %s' % rep['error']
         return res
-    model_pend = sorted(rep['pending'])
-    if sorted(real_pend) != model_pend:
-        res['mismatch'] = 'pending actions differ (id, include path, number of introspectables): impl %s model %s' % (
-            [p for p in sorted(real_pend) if p not in model_pend][:4], [p for p in model_pend if p not in real_pend][:4])
+    reps = rep.get('commits', [])
+    res['model'] = [{k: r.get(k) for k in ('outcome', 'reg', 'executed')} for r in reps]
+    if len(reps) != len(outcomes):
+        res['mismatch'] = 'impl went through %d commits (%s), model through %d' % (len(outcomes), outcomes, len(reps))
         return res
-    if outcome == 'ok':
-        if rep['outcome'] != 'ok' or rep['reg'] != 'ok':
-            res['mismatch'] = 'impl committed, model says %s / %s' % (rep['outcome'], rep['reg'])
+    for n, (outcome, real_pend, rv, rp) in enumerate(zip(outcomes, real_pends, rvs, reps)):
+        tag = 'commit %d: ' % (n + 1)
+        model_pend = sorted(rp['pending'])
+        if sorted(real_pend) != model_pend:
+            res['mismatch'] = tag + 'pending actions differ (id, include path, number of introspectables): impl %s model %s' % (
+                [p for p in sorted(real_pend) if p not in model_pend][:4], [p for p in model_pend if p not in real_pend][:4])
             return res
-        # empty categories are dropped on both sides: add_view's callable asks `introspector.get('renderer factories', …)`,
-        # whose setdefault creates that category as a side effect of an action callable (not modelled here; the
-        # side effect of `get` itself is compared in the ops stream)
-        mv = [[c, [[d, v, (act_stmt.get(i, -1) if i != BASE_INFO else BASE_INFO), r] for d, v, i, r in rows]] for c, rows in rep['state'] if rows]
-        rv = [x for x in rv if x[1]]
-        if mv != rv:
-            res['mismatch'] = 'introspector state differs: first difference %s' % _first_diff(rv, mv)
-    elif outcome == 'conflict':
-        if not isinstance(rep['outcome'], dict) or 'conflict' not in rep['outcome']:
-            res['mismatch'] = 'impl raised a conflict, model says %s' % (rep['outcome'],)
-    elif outcome == 'KeyError':
-        if rep['outcome'] != 'ok' or rep['reg'] != {'err': 'KeyError'}:
-            res['mismatch'] = 'impl raised KeyError while registering, model says %s / %s' % (rep['outcome'], rep['reg'])
-    # execution errors of action callables are outside the model (reported by the oracle)
+        if outcome == 'ok':
+            if rp['outcome'] != 'ok' or rp['reg'] != 'ok':
+                res['mismatch'] = tag + 'impl committed, model says %s / %s' % (rp['outcome'], rp['reg'])
+                return res
+            # empty categories are dropped on both sides: add_view's callable asks `introspector.get('renderer factories', …)`,
+            # whose setdefault creates that category as a side effect of an action callable (not modelled here; the
+            # side effect of `get` itself is compared in the ops stream)
+            mv = [[c, [[d, v, (act_stmt.get(i, -1) if i != BASE_INFO else BASE_INFO), r] for d, v, i, r in rows]] for c, rows in rp['state'] if rows]
+            rv = [x for x in rv if x[1]]
+            if mv != rv:
+                res['mismatch'] = tag + 'introspector state differs: first difference %s' % _first_diff(rv, mv)
+                return res
+        elif outcome == 'conflict':
+            if not isinstance(rp['outcome'], dict) or 'conflict' not in rp['outcome']:
+                res['mismatch'] = tag + 'impl raised a conflict, model says %s' % (rp['outcome'],)
+                return res
+        elif outcome == 'KeyError':
+            if rp['outcome'] != 'ok' or rp['reg'] != {'err': 'KeyError'}:
+                res['mismatch'] = tag + 'impl raised KeyError while registering, model says %s / %s' % (rp['outcome'], rp['reg'])
+                return res
+        # execution errors of action callables are outside the model (reported by the oracle)
     return res
 
 
@@ -1551,6 +1706,11 @@ def kind_of(detail):
     return 'other'
 
 
+def _strip_commit(d):
+    import re
+    return re.sub(r'^commit \d+: ', '', d)
+
+
 def fails(case, kind=None):
     """does the implementation violate the property on this case (unknown findings only; same kind of violation)?"""
     try:
@@ -1567,35 +1727,50 @@ def shrink_case(case, kind=None):
             return fails({'stream': 'ops', 'seq': seq}, kind)
         return {'stream': 'ops', 'seq': vfutil.shrink(case['seq'], f, max_steps=400)}
 
-    def f2(tree):
-        c = dict(case); c['tree'] = tree
-        return fails(c, kind)
-    tree = case['tree']
-    # 1. unwrap / drop whole statements and include nodes (cheap, structural)
-    changed = True
+    hist = 'commits' in case
+
+    def mk(commits):
+        c = dict(case)
+        if hist:
+            c['commits'] = commits
+        else:
+            c['tree'] = commits[0]
+        return c
+
+    def f2(commits):
+        return fails(mk(commits), kind)
+    commits = [list(t) for t in case_trees(case)]
     steps = 0
-    while changed and steps < 120:
+    changed = True
+    # 1. drop whole commits, unwrap / drop statements and include nodes (structural)
+    while changed and steps < 160:
         changed = False
-        for cand in _tree_candidates(tree):
+        cands = []
+        if len(commits) > 1:
+            cands += [commits[:i] + commits[i + 1:] for i in range(len(commits))]
+        for i, t in enumerate(commits):
+            for sub in _tree_candidates(t):
+                cands.append(commits[:i] + [sub] + commits[i + 1:])
+        for cand in cands:
             steps += 1
             if f2(cand):
-                tree = cand; changed = True
+                commits = cand; changed = True
                 break
-            if steps >= 120:
+            if steps >= 160:
                 break
     # 2. drop optional arguments of the remaining statements
-    for st in list(_walk_stmts(tree)):
+    for st in [st for t in commits for st in _walk_stmts(t)]:
         for k in list(st['args']):
-            if steps >= 260:
+            if steps >= 320:
                 break
             steps += 1
-            t2 = copy.deepcopy(tree)
-            for st2 in _walk_stmts(t2):
+            c2 = copy.deepcopy(commits)
+            for st2 in [x for t in c2 for x in _walk_stmts(t)]:
                 if st2['id'] == st['id']:
                     st2['args'].pop(k, None)
-            if f2(t2):
-                tree = t2
-    return dict(case, tree=tree)
+            if f2(c2):
+                commits = c2
+    return mk(commits)
 
 
 def _tree_candidates(tree):
@@ -1630,6 +1805,21 @@ def sweep_cases():
                         clear(n['body'])
             clear(c['tree'])
             out.append(c)
+    # every family declared, committed, and declared again for the same slot with other values in a second commit;
+    # and the same on an autocommit configurator
+    for fi, fam in enumerate(FAMILIES):
+        if fam == 'set_authentication_policy':
+            continue
+        for auto in (False, True):
+            rng = random.Random(7000 + 10 * fi + auto)
+            g = {'n': 0, 'sid': 0, 'inc': 0}
+            firsts = {}
+            t1 = gen_cfg(rng, fams=[fam], shape='flat', flag=True, g=g, firsts=firsts, switches=False)['tree']
+            t2 = gen_cfg(rng, fams=[fam], shape='flat' if auto else 'nested', flag=True, g=g, same_as=firsts, switches=False)['tree']
+            if auto:
+                out.append({'stream': 'cfg', 'introspection': True, 'autocommit': True, 'commits': [[n] for n in t1 + t2]})
+            else:
+                out.append({'stream': 'cfg', 'introspection': True, 'commits': [t1, t2]})
     # both settings of the two CSRF origin options, and a nested configurator below an introspection-off root
     for co in (True, False):
         out.append({'stream': 'cfg', 'introspection': True, 'tree': [{'stmt': {'id': 1, 'dir': 'set_default_csrf_options', 'args': {
@@ -1692,9 +1882,10 @@ def run(ctx):
         vfutil.bump(dist, 'stream:' + case.get('stream', 'cfg'))
         vfutil.bump(dist, 'outcome:' + str(r['dist']['outcome']))
         if case.get('stream') == 'cfg':
-            for st in _walk_stmts(case['tree']):
+            for st in [x for t in case_trees(case) for x in _walk_stmts(t)]:
                 vfutil.bump(dist, 'dir:' + st['dir'])
             vfutil.bump(dist, 'flag:' + ('on' if case['introspection'] else 'off'))
+            vfutil.bump(dist, 'commits:%d%s' % (len(case_trees(case)), '/autocommit' if case.get('autocommit') else ''))
         if len(samples) < 8 and origin == 'random':
             samples.append(case)
         for detail, finding in r['violations']:
@@ -1710,6 +1901,11 @@ def run(ctx):
         one(case, 'corpus')
     for case in sweep_cases():
         one(case, 'sweep')
+    nss = 0
+    for case in small_scope_ops(4):
+        one(case, 'small-scope')
+        nss += 1
+    notes.append('small-scope exhaustive: all %d op sequences of <= %d steps over 3 slots (add/re-add, relate, unrelate, remove)' % (nss, 4))
     n_ops = ctx.n(8000, 100000)
     n_cfg = ctx.n(2000, 20000)
     for k in range(n_cfg):
@@ -1717,6 +1913,11 @@ def run(ctx):
             notes.append('cfg stream stopped early at %d' % k)
             break
         one(gen_cfg(ctx.rng), 'random')
+    for k in range(ctx.n(500, 5000)):
+        if ctx.time_left() < 120:
+            notes.append('history stream stopped early at %d' % k)
+            break
+        one(gen_history(ctx.rng) if k % 5 < 3 else gen_autocommit(ctx.rng), 'random')
     for k in range(n_ops):
         if ctx.time_left() < 60:
             notes.append('ops stream stopped early at %d' % k)
@@ -1764,8 +1965,9 @@ def search(ctx):
     viol, searched = [], 0
     cases = [c for _, c in ctx.corpus()] + sweep_cases()
     rng = random.Random(ctx.seed * 7919 + 20)
-    for _ in range(1500):
-        cases.append(gen_cfg(rng))
+    for k in range(1500):
+        cases.append(gen_cfg(rng) if k % 3 else (gen_history(rng) if k % 2 else gen_autocommit(rng)))
+    cases = cases[:len(cases) - 1500] + list(small_scope_ops(4)) + cases[len(cases) - 1500:]
     for k in range(3000):
         cases.append(gen_ops(rng, rng.randrange(3, 14), collide=(k % 3 == 0)))
     for case in cases:
@@ -1785,7 +1987,8 @@ def search(ctx):
                          'detail': (bad2 or bad)[0], 'stream': case.get('stream')})
             if len(viol) >= 3:
                 break
-    return {'violations': viol, 'searched': searched, 'exhaustive': False}
+    return {'violations': viol, 'searched': searched, 'exhaustive': True,
+            'scope': 'all op sequences of <= 4 steps over 3 slots (add incl. re-add, relate, unrelate, remove) + sweep + random'}
 
 
 def replay(ctx, rep):
